@@ -913,7 +913,7 @@ fn mismark(r: &mut Rng, v: &mut Value) {
 /// regression corpus: the inputs on which the monitor found mis-marked or malformed values
 /// before the fix: commits (35ff854, f306b49, eea1d01, ade6601, 60de79d, 9703aa4, e1a3340,
 /// f50d52f, 7af2e92, 3374592, f64950a); replayed first by every search that starts at case 0
-const REGRESSION: [&str; 27] = [
+const REGRESSION: [&str; 41] = [
     "¯\"abc\"",
     "⌊⍆[ℂ5 1.2 ℂ0 1.7]",
     "⌈⍆[ℂ5 1.2 ℂ0 1.7]",
@@ -941,6 +941,21 @@ const REGRESSION: [&str; 27] = [
     "↥0 ⍆[1 NaN]",
     "≡≡□ ↯2_3_0 0",
     "⍚⌵ \"ab\"",
+    // round 3 (584f00c, b53741f, ccb866a, 68a793c, 09b3e8b, d523098, 4c07839, 970c1d7, c9b4779, 3a3fb99)
+    "∵⊟ [1] ↯0_1 0",
+    "∵: [1] ↯0_1 0",
+    "∵⊟ ↯0_1 0 [1]",
+    "⊏ ↯0_3 0 [1_2 3_4]",
+    "∊ ↯3_2_2 0 ↯0_0_2_2 0",
+    "⊗ ↯3_2_2 0 ↯0_0_2_2 0",
+    "≡≡/+ \"ab\"",
+    "≡≡(⊢¤) [1 2]",
+    "≡⊢ ↯0_0 0",
+    "≡(⍉⍉⍉) ↯2_3_2⇡12",
+    "/↥⊞- [] ↯2_2_2⇡8",
+    "⬚0+ ↯2_3_0 π ↯2_2_4 π",
+    "/◇⊂⍚(⊂0) []",
+    "≡(4 ¯) [1 2]",
 ];
 
 static PROGRESS: std::sync::atomic::AtomicU64 = std::sync::atomic::AtomicU64::new(u64::MAX);
